@@ -6,10 +6,14 @@ VERIF = os.path.dirname(os.path.dirname(os.path.abspath(__file__)))
 COQ = os.path.join(VERIF, "coq")
 RUN = os.path.join(VERIF, "run")
 GEN = os.path.join(RUN, "gen")
-REPLAY = os.path.join(RUN, "replay")
+REPLAY = os.path.join(RUN, "replay")   # re-pointed below for runs against a scratch copy
 EVID = os.path.join(VERIF, "evidence")
 KNOWN = os.path.join(VERIF, "KNOWN_FINDINGS.txt")
 REPO = os.environ.get("COLA_REPO", "/repo")
+if os.path.realpath(REPO) != "/repo":   # runs against scratch copies (seeded changes, mutants) keep their replays apart
+    _h = hashlib.sha1(os.path.realpath(REPO).encode()).hexdigest()[:8]
+    REPLAY = os.path.join(RUN, "replay_scratch", _h)
+    GEN = os.path.join(RUN, "gen_scratch", _h)       # generated case files too (concurrent runs of one property)
 PY = "/venv/bin/python"
 NCPU = 16
 
